@@ -1417,7 +1417,7 @@ impl Prop for C08 {
     }
     fn budget(&self, tier: Tier) -> usize {
         match tier {
-            Tier::Quick => 120,
+            Tier::Quick => 84,
             Tier::Thorough => 1600,
             Tier::Search => 400,
         }
